@@ -1,6 +1,8 @@
 //! C16 correspondence: synthesised glyf/loca tables -> LocaTable/GlyfTable -> OutlineBuilder::visit with a
 //! recording OutlineSink.
-//!   input  = GID|g0,g1,...      gN = the bytes of glyph N in hex ('-' = zero-length loca entry)
+//!   input  = GID|g0,g1,...[|Pcontours]   gN = the bytes of glyph N in hex ('-' = zero-length loca entry);
+//!            the optional third field (ignored here, used by the judge) lists the contours glyph GID is
+//!            meant to encode: points `on,x,y` separated by spaces, contours by '/'
 //!   output = ok:CMD CMD ...     CMD = M:x:y | L:x:y | Q:cx:cy:x:y | C:... | Z ; numbers = f32 bits, 8 hex digits
 //!          | err:Name | panic
 use allsorts::binary::read::ReadScope;
@@ -41,7 +43,7 @@ impl OutlineSink for Rec {
 
 fn run(input: &str) -> String {
     let parts: Vec<&str> = input.split('|').collect();
-    if parts.len() != 2 {
+    if parts.len() != 2 && parts.len() != 3 {
         return "badinput".to_string();
     }
     let gid: u16 = match parts[0].parse() {
@@ -234,7 +236,25 @@ fn encode_points(rng: &mut Rng, pts: &[Pt]) -> (Vec<u8>, Vec<u8>, Vec<u8>) {
 }
 
 fn simple_glyph(rng: &mut Rng, malform: bool) -> Vec<u8> {
+    simple_glyph_pts(rng, malform).0
+}
+
+fn hint(contours: &[Vec<Pt>]) -> String {
+    let cs: Vec<String> = contours
+        .iter()
+        .map(|c| c.iter().map(|p| format!("{},{},{}", p.on as u8, p.x, p.y)).collect::<Vec<_>>().join(" "))
+        .collect();
+    format!("P{}", cs.join("/"))
+}
+
+/// the glyph bytes and the contours they are meant to encode
+fn simple_glyph_pts(rng: &mut Rng, malform: bool) -> (Vec<u8>, Vec<Vec<Pt>>) {
     let contours = gen_contours(rng);
+    let g = simple_glyph_of(rng, malform, &contours);
+    (g, contours)
+}
+
+fn simple_glyph_of(rng: &mut Rng, malform: bool, contours: &[Vec<Pt>]) -> Vec<u8> {
     let pts: Vec<Pt> = contours.iter().flatten().copied().collect();
     let mut g = vec![];
     g.extend_from_slice(&be16(contours.len() as i32));
@@ -244,7 +264,7 @@ fn simple_glyph(rng: &mut Rng, malform: bool) -> Vec<u8> {
     }
     let mut ends: Vec<i32> = vec![];
     let mut n = 0i32;
-    for c in &contours {
+    for c in contours {
         n += c.len() as i32;
         ends.push(n - 1);
     }
@@ -442,15 +462,28 @@ fn gen(rng: &mut Rng) -> String {
     let gid: u16;
     match kind {
         0..=8 => {
-            // one (or a few) simple glyphs, well-formed
+            // one (or a few) simple glyphs, well-formed; the intended contours of the visited glyph
+            // travel with the input so that the judge can decide the outline from the specification
             let n = rng.range(1, 3) as usize;
+            let mut hints = vec![];
             for _ in 0..n {
-                glyphs.push(simple_glyph(rng, false));
+                let (g, cs) = simple_glyph_pts(rng, false);
+                glyphs.push(g);
+                hints.push(Some(hint(&cs)));
             }
             if rng.chance(1, 10) {
                 glyphs.push(vec![]);
+                hints.push(None);
             }
             gid = rng.below(glyphs.len() as u64) as u16;
+            if let Some(h) = &hints[gid as usize] {
+                return format!(
+                    "{}|{}|{}",
+                    gid,
+                    glyphs.iter().map(|g| hex(g)).collect::<Vec<_>>().join(","),
+                    h
+                );
+            }
         }
         9..=10 => {
             // malformed simple glyph
